@@ -112,6 +112,7 @@ fn main() {
     let live = Arc::new(AtomicUsize::new(0));
     let excl = Arc::new(AtomicUsize::new(0));
     let finish = Arc::new((Mutex::new(false), Condvar::new()));
+    let settle = Arc::new((Mutex::new((0usize, 0usize)), Condvar::new()));   // (go, threads settled)
     let mut handles = vec![];
     for (i, script) in scripts.into_iter().enumerate() {
         let inbox = inbox.clone();
@@ -119,10 +120,12 @@ fn main() {
         let live = live.clone();
         let excl = excl.clone();
         let finish = finish.clone();
+        let settle = settle.clone();
         let names2 = names.clone();
         handles.push(std::thread::spawn(move || {
             let mut mine: Vec<BiasedRc<Payload>> = Vec::new();
             let mut unwrapped: Vec<Payload> = Vec::new();
+            let (mut is_registered, mut has_exited) = (i == 0, false);
             if i == 0 {
                 steel_rc::register_thread();
                 let h = BiasedRc::new(Payload(7));
@@ -179,8 +182,8 @@ fn main() {
                         if let Some(h) = mine.pop() { inbox[u].lock().unwrap().push(h); }
                     }
                     "merge" => { QueueHandle::run_explicit_merge(); }
-                    "register" => { steel_rc::register_thread(); }
-                    "exit" => { QueueHandle::finish_thread_merge(); }
+                    "register" => { steel_rc::register_thread(); is_registered = true; }
+                    "exit" => { QueueHandle::finish_thread_merge(); has_exited = true; }
                     _ => {}
                 }
                 // property monitor after every operation: destroyed while handles are alive?
@@ -200,6 +203,23 @@ fn main() {
             }
             // keep thread-local identity alive until the run is over, then leak what is left so
             // that thread exit adds no unscripted reference-count traffic
+            // SETTLE (after the schedule, outside the baton order; the hook is a no-op for this thread now):
+            // every registered thread that has not exited reaches two more collection points.  Whatever the
+            // protocol legitimately defers to the owner's next merge happens now; a value that no handle refers
+            // to and that is STILL not destroyed afterwards has leaked.
+            {
+                let (m, cv) = &*settle;
+                let mut g = m.lock().unwrap();
+                while g.0 == 0 { g = cv.wait(g).unwrap(); }
+                drop(g);
+                if is_registered && !has_exited {
+                    QueueHandle::run_explicit_merge();
+                    QueueHandle::run_explicit_merge();
+                }
+                let mut g = m.lock().unwrap();
+                g.1 += 1;
+                cv.notify_all();
+            }
             let (m, cv) = &*finish;
             let mut g = m.lock().unwrap();
             while !*g { g = cv.wait(g).unwrap(); }
@@ -238,6 +258,15 @@ fn main() {
     }
     let a = BOX_ADDR.load(Ordering::SeqCst);
     let proj = if a != 0 { unsafe { verif::project(a) } } else { (true, false, 1, 0, false, false) };
+    let drops_at_end = DROPS.load(Ordering::SeqCst);
+    {
+        let (m, cv) = &*settle;
+        let mut g = m.lock().unwrap();
+        g.0 = 1;
+        cv.notify_all();
+        while g.1 < n { g = cv.wait(g).unwrap(); }
+    }
+    let drops_settled = DROPS.load(Ordering::SeqCst);
     {
         let (m, cv) = &*finish;
         *m.lock().unwrap() = true;
@@ -248,7 +277,7 @@ fn main() {
     let out = json!({
         "id": beh["id"], "findings": st.findings, "diverged": diverged, "destroys": st.destroys,
         "uaf": st.uaf, "excl": excl.load(Ordering::SeqCst) > 0, "live": live.load(Ordering::SeqCst),
-        "payload_drops": DROPS.load(Ordering::SeqCst), "steps": st.trace.len(),
+        "payload_drops": DROPS.load(Ordering::SeqCst), "drops_at_end": drops_at_end, "drops_settled": drops_settled, "steps": st.trace.len(),
         "proj": {"owner_some": proj.0, "local": proj.2, "cnt": proj.3, "merged": proj.4, "queued": proj.5},
     });
     println!("{}", out);
